@@ -271,6 +271,107 @@ def run(tier):
                                     'from a fresh build of the changed specification')
             elif (s2 == 'ok') != (stf == 'ok'):
                 chk.fail('rewrite:writability-differs-after-mutation', case, f'rewrite {s2} {e2}, fresh build {stf}')
+        # (d) values of another per-value shape assigned after a write (no dimension assigned by the user: it is derived
+        # from the values at each write): the rewritten file is the one a fresh build of the new values gives
+        import numpy as _np
+        from dliswriter import DLISFile as _DF
+
+        def shaped(m, k=2, off=0.0):
+            return [[float(off + r * 10 + c) for c in range(m)] for r in range(k)] if m else [float(off + r) for r in range(k)]
+
+        for i in range(12 if tier == 'quick' else 120):
+            kind = ['parameter', 'computation', 'calibration_measurement'][i % 3]
+            m1, m2 = R.sample([0, 1, 2, 3, 4], 2)
+            zoned = R.random() < 0.7 or kind == 'parameter'
+
+            def make(m):
+                df = _DF(set_identifier='RESHAPE')
+                lf = df.add_logical_file()
+                lf.add_origin('O', file_set_number=1, creation_time='2020/01/01 00:00:00')
+                ch = lf.add_channel('C', data=_np.arange(3.0))
+                lf.add_frame('F', channels=[ch])
+                zs = [lf.add_zone('Z1'), lf.add_zone('Z2')]
+                if kind == 'parameter':
+                    ob = lf.add_parameter('P', values=shaped(m), zones=zs)
+                elif kind == 'computation':
+                    ob = lf.add_computation('P', values=shaped(m), **({'zones': zs} if zoned else {}))
+                else:
+                    ob = lf.add_calibration_measurement('P', maximum_deviation=shaped(m), standard_deviation=shaped(m, off=0.5))
+                return df, ob
+            df1, ob1 = make(m1)
+            pth = os.path.join(tmp, 'reshape.dlis')
+            s1, e1 = call(df1.write, pth, output_chunk_size=2**20)
+            if s1 != 'ok':
+                chk.count(f'reshape:first-write-{e1}')
+                continue
+            if kind == 'calibration_measurement':
+                ob1.maximum_deviation.value = shaped(m2)
+                ob1.standard_deviation.value = shaped(m2, off=0.5)
+            else:
+                ob1.values.value = shaped(m2)
+            s2, e2 = call(df1.write, pth, output_chunk_size=2**20)
+            d2 = open(pth, 'rb').read() if s2 == 'ok' else None
+            df3, _ = make(m2)
+            s3, e3 = call(df3.write, pth, output_chunk_size=2**20)
+            d3 = open(pth, 'rb').read() if s3 == 'ok' else None
+            case = {'object': kind, 'first_values_shape': [2] + ([m1] if m1 else []), 'then_assigned_shape': [2] + ([m2] if m2 else []),
+                    'dimension_assigned_by_user': False, 'then': 'the same DLISFile written again'}
+            chk.case('reshape-then-rewrite', nontrivial_key=('d', i), sample=dict(case, second=s2, fresh=s3))
+            if (s2 == 'ok') != (s3 == 'ok'):
+                chk.fail('rewrite:writability-differs-after-reshape', case, f'rewrite: {s2} {e2}; fresh build of the new values: {s3} {e3}')
+            elif s2 == 'ok' and d2 != d3:
+                chk.fail('rewrite:stale-derived-dimension', case, 'the rewritten file differs from a fresh build of the new values')
+        # (e) an indexed frame written twice with other rows each time: whatever the first write derived from its rows
+        # (INDEX-MIN / -MAX, SPACING or — for an unevenly spaced index — DIRECTION) is derived anew from the rows of the second
+        for i in range(16 if tier == 'quick' else 120):
+            up = [0.0, 1.0, 3.0, 6.0, 10.0]
+            down = [9.0, 7.0, 4.0, 0.5]
+            even = [20.0, 22.0, 24.0, 26.0]
+            flat = [5.0, 5.0, 5.0]
+            parts = R.sample([('up', up), ('down', down), ('even', even), ('flat', flat)], 2)
+            vals = parts[0][1] + parts[1][1]
+            w1 = (0, len(parts[0][1]))
+            w2 = (len(parts[0][1]), len(vals))
+            dt = R.choice(['float64', 'float32', 'int32'])
+            how = R.choice(['window', 'window', 'data'])
+
+            def make():
+                df = _DF(set_identifier='REIDX')
+                lf = df.add_logical_file()
+                lf.add_origin('O', file_set_number=1, creation_time='2020/01/01 00:00:00')
+                if how == 'window':
+                    c0 = lf.add_channel('DEPTH', data=_np.array(vals, dtype=dt), units='m')
+                    c1 = lf.add_channel('X', data=_np.arange(len(vals), dtype=_np.float32))
+                else:
+                    c0 = lf.add_channel('DEPTH', units='m')
+                    c1 = lf.add_channel('X')
+                lf.add_frame('FR', channels=[c0, c1], index_type='BOREHOLE-DEPTH')
+                return df
+
+            def wr(df, w):
+                if how == 'window':
+                    return call(df.write, pth, output_chunk_size=2**20, from_idx=w[0], to_idx=w[1])
+                seg = vals[w[0]:w[1]]
+                return call(df.write, pth, output_chunk_size=2**20,
+                            data={'DEPTH': _np.array(seg, dtype=dt), 'X': _np.arange(len(seg), dtype=_np.float32)})
+            pth = os.path.join(tmp, 'reidx.dlis')
+            df1 = make()
+            s1, e1 = wr(df1, w1)
+            s2, e2 = wr(df1, w2)
+            d2 = open(pth, 'rb').read() if s2 == 'ok' else None
+            s3, e3 = wr(make(), w2)
+            d3 = open(pth, 'rb').read() if s3 == 'ok' else None
+            case = {'index_values': vals, 'dtype': dt, 'first_write_rows': list(w1), 'second_write_rows': list(w2),
+                    'rows_given_by': 'from_idx / to_idx' if how == 'window' else 'write(data=...)',
+                    'first_rows': parts[0][0], 'second_rows': parts[1][0]}
+            chk.case('reindex-then-rewrite', nontrivial_key=('e', i), sample=dict(case, first=s1, second=s2, fresh=s3))
+            if s1 != 'ok':
+                continue
+            if (s2 == 'ok') != (s3 == 'ok'):
+                chk.fail('rewrite:writability-differs-after-other-rows', case, f'second write: {s2} {e2}; fresh specification: {s3} {e3}')
+            elif s2 == 'ok' and d2 != d3:
+                chk.fail('rewrite:stale-derived-index-attribute', case, 'the second file differs from the one a fresh specification '
+                                                                        'writes from the same rows')
     finally:
         shutil.rmtree(tmp, ignore_errors=True)
     return finish(chk, bres, THEOREMS,
